@@ -18,8 +18,9 @@ may or may not be kept.
 * `C10_durable_monotone` — durability only grows with the power-loss point;
 * `C10_counterexample_renameWithoutDirSync` — a trace in which the index is renamed into place and the
   read returns without a directory sync is *not* disciplined and the rename is not durable at the next
-  point: this is the engine's actual index persist (`tmp write, fsync(tmp), rename`, no directory
-  fsync — open finding `indexRenameNotDurable`): the consumption clause of C10 is false on this tree.
+  point: this was the engine's index persist on the pinned tree (`tmp write, fsync(tmp), rename`, no directory
+  fsync — finding `indexRenameNotDurable`, repaired by fix 5288e6e, which syncs the directory after the rename):
+  on the repaired tree every recorded trace is read-disciplined and `C10_acked_consumption_durable` applies.
 
 The tie to the code is a check of the recorded traces, not a model of the write path: hook H1 records
 every entry write (with the O_SYNC status of its descriptor), file sync, file creation, directory sync,
@@ -75,10 +76,10 @@ theorem C10_checker_sound (tr : Trace) :
     (ackDisciplinedB tr = true → AckDisciplined tr) ∧ (readDisciplinedB tr = true → ReadDisciplined tr) :=
   ⟨ackDisciplinedB_sound tr, readDisciplinedB_sound tr⟩
 
-/-- the engine's index persist: rename without a directory sync; the read returns -/
+/-- the engine's index persist before fix 5288e6e: rename without a directory sync; the read returns -/
 def idxTrace : Trace := [.renameIdx 1, .ackRead 1]
 
-/-- **Open finding `indexRenameNotDurable`.** That trace is not read-disciplined, and at the point right
+/-- **Finding `indexRenameNotDurable` (the pinned tree; repaired by fix 5288e6e).** That trace is not read-disciplined, and at the point right
 after the read returned the rename is not durable: the old cursor can come back after a power loss. -/
 theorem C10_counterexample_renameWithoutDirSync :
     ¬ ReadDisciplined idxTrace ∧ ¬ renameDurable idxTrace 2 0 := by
@@ -113,5 +114,8 @@ example : AckDisciplined goodTrace := by
     refine ⟨3, 0, false, by omega, rfl, Or.inr ⟨4, by omega, by omega, _, rfl, rfl⟩, Or.inr ⟨0, by omega, rfl, 2, by omega, by omega, _, rfl, rfl⟩⟩
   · simp [goodTrace] at h; subst h
     refine ⟨6, 0, true, by omega, rfl, Or.inl rfl, Or.inr ⟨0, by omega, rfl, 2, by omega, by omega, _, rfl, rfl⟩⟩
+
+/-- the index persist after fix 5288e6e (rename, directory sync, then the read returns) is read-disciplined -/
+example : Durable.readDisciplinedB [.renameIdx 1, .syncDir, .ackRead 1] = true := by decide
 
 end WalrusVerif.Props.C10
